@@ -6,6 +6,17 @@ from gen import common as G
 def run_simple(ctx, cases, prop, chk_filter=None, signature=None, relation=None, stateful_chk=False, verdict_filter=None, chk_variant=None):
     """chk_filter(op) -> bool: which ops get a `chk <op> | <impl obs>` line.
     signature(case, op_index, verdict, agrees) -> str."""
+    # minimised past failures (corpus/<prop>/*.ops, one case per file) always run first
+    import os
+    cdir = os.path.join(os.path.dirname(os.path.dirname(os.path.abspath(__file__))), "corpus", prop)
+    if os.path.isdir(cdir):
+        corpus = []
+        for f in sorted(os.listdir(cdir)):
+            if f.endswith(".ops"):
+                ops = [l.rstrip("\n") for l in open(os.path.join(cdir, f)) if l.strip() and not l.startswith("#")]
+                if ops:
+                    corpus.append(Case(ops, "corpus:" + f[:-4], True, True))
+        cases = corpus + list(cases)
     impl, model = ctx.both(cases)
     shards = ctx.cores if ctx.tier == "thorough" else min(8, ctx.cores)
     verdicts = None
